@@ -62,6 +62,11 @@ def canonical(root):
 
             data = v.encode("utf-8", "surrogatepass") if isinstance(v, str) else bytes(v)
             return [type(v).__name__, len(v), hashlib.sha1(data).hexdigest()]
+        if isinstance(v, (str, int, float, bytes)) and type(v) not in (str, int, float, bool, bytes):
+            # an instance of a str / int / float SUBCLASS (an enum member, a tagged string): equal to the plain value
+            # but a different kind of object - the class is part of the form
+            base = str.__str__(v) if isinstance(v, str) else int(v) if isinstance(v, int) else float(v) if isinstance(v, float) else bytes(v)
+            return ["instance_of", type(v).__module__ + "." + type(v).__qualname__, val(base, depth + 1)]
         if isinstance(v, (bytes, bytearray)):
             return [type(v).__name__, list(v)]
         if v is None or isinstance(v, (bool, int, str)):
